@@ -40,12 +40,12 @@ static struct {
         struct cat_command cmd;
         struct cat_variable var[2];
         struct cat_io_interface io;
-        uint8_t buf[CAP];
-        union { uint8_t b[8]; uint32_t align; } data;
         uint8_t second;
         int wcalls0, wcalls1;
         size_t wsize0;
 } W;
+static uint8_t G_buf[CAP];
+static union { uint8_t b[8]; uint32_t align; } G_data;
 
 static int io_write(char c) { (void)c; return 1; }
 static int io_read(char *c) { (void)c; return 0; }
@@ -64,6 +64,8 @@ static int var_write(const struct cat_variable *v, const size_t n)
 static void world_reset(void)
 {
         WORLD_ZERO(W);
+        WORLD_ZERO(G_buf);
+        WORLD_ZERO(G_data);
 }
 
 static int is_dec(unsigned char c) { return c >= '0' && c <= '9'; }
@@ -148,7 +150,7 @@ static void scen_run(void)
         /* descriptor: one command, variable 0 under test, variable 1 a plain uint8 */
         W.io.read = io_read; W.io.write = io_write;
         W.var[0].type = (cat_var_type)VT;
-        W.var[0].data = W.data.b;
+        W.var[0].data = G_data.b;
         W.var[0].data_size = ds;
         W.var[0].access = (cat_var_access)S.access;
         W.var[0].write = var_write;
@@ -163,20 +165,20 @@ static void scen_run(void)
         W.grp.cmd = &W.cmd; W.grp.cmd_num = 1;
         W.grps[0] = &W.grp;
         W.desc.cmd_group = W.grps; W.desc.cmd_group_num = 1;
-        W.desc.buf = W.buf; W.desc.buf_size = CAP;
+        W.desc.buf = G_buf; W.desc.buf_size = CAP;
         W.desc.unsolicited_buf = (uint8_t *)&W.second; /* separate (unused) event buffer: whole buf is the command half */
         W.desc.unsolicited_buf_size = 1;
         cat_init(&W.at, &W.desc, &W.io, NULL);
 
-        for (i = 0; i < 4; i++) W.data.b[i] = S.init[i];
-        for (i = 0; i < 4; i++) W.data.b[4 + i] = 0xA5; /* canary behind the widest value */
-        before = vf_u32(W.data.b);
+        for (i = 0; i < 4; i++) G_data.b[i] = S.init[i];
+        for (i = 0; i < 4; i++) G_data.b[4 + i] = 0xA5; /* canary behind the widest value */
+        before = vf_u32(G_data.b);
 
         /* argument text as parse_command_args leaves it */
         for (i = 0; i < LEN; i++)
-                if (i < n) W.buf[i] = S.text[i];
-        if (S.comma) { W.buf[n] = ','; W.buf[n + 1] = '5'; W.buf[n + 2] = 0; W.at.length = n + 2; }
-        else { W.buf[n] = 0; W.at.length = n; }
+                if (i < n) G_buf[i] = S.text[i];
+        if (S.comma) { G_buf[n] = ','; G_buf[n + 1] = '5'; G_buf[n + 2] = 0; W.at.length = n + 2; }
+        else { G_buf[n] = 0; W.at.length = n; }
 
         W.at.cmd = &W.cmd;
         W.at.cmd_type = CAT_CMD_TYPE_WRITE;
@@ -198,15 +200,15 @@ static void scen_run(void)
         }
 
         CHK(C04, W.at.state == CAT_STATE_FLUSH_IO_WRITE_WAIT, "argument parsing ends in a result code");
-        accepted = (W.buf[0] == 'O' && W.buf[1] == 'K' && W.buf[2] == 0);
-        CHK(C04, accepted || (W.buf[0] == 'E' && W.buf[1] == 'R' && W.buf[2] == 'R' && W.buf[3] == 'O' && W.buf[4] == 'R' && W.buf[5] == 0),
+        accepted = (G_buf[0] == 'O' && G_buf[1] == 'K' && G_buf[2] == 0);
+        CHK(C04, accepted || (G_buf[0] == 'E' && G_buf[1] == 'R' && G_buf[2] == 'R' && G_buf[3] == 'O' && G_buf[4] == 'R' && G_buf[5] == 0),
             "answer is OK or ERROR");
 
         grammatical = reference(S.text, n, ds, &inrange, &expect);
-        got = vf_u32(W.data.b);
+        got = vf_u32(G_data.b);
 
         for (i = 0; i < 4; i++)
-                CHK(C04, W.data.b[4 + i] == 0xA5, "bytes beyond the variable are untouched");
+                CHK(C04, G_data.b[4 + i] == 0xA5, "bytes beyond the variable are untouched");
 
         if (S.access == CAT_VAR_ACCESS_READ_ONLY) {
                 CHK(C08, got == before, "read-only variable keeps its value");
@@ -228,7 +230,7 @@ static void scen_run(void)
                         CHK(C04, W.second == 5 && W.wcalls1 == 1, "following argument parsed");
                 if (!value_ok || S.wfail)
                         CHK(C04, W.wcalls1 == 0 && W.second == 0, "arguments after a rejected one are not stored");
-                WITNESS(value_ok && n >= 3 && ds == 4, "accepted-3-digits-32bit");
+                WITNESS(value_ok && n >= 3, "accepted-3-chars");
                 WITNESS(grammatical && !inrange, "grammatical-out-of-range");
                 WITNESS(!grammatical && n > 0, "ungrammatical");
                 WITNESS(value_ok && S.comma, "first-of-two");
